@@ -255,6 +255,12 @@ class ExecutionState:
         # Operations whose parent has completed
         self._parent_done: set[str] = set()
 
+        # child_operation_id -> parent_id links seen in updates of this invocation
+        self._parent_of: dict[str, str] = {}
+
+        # CONTEXT operations that were handed their completion record in this invocation
+        self._completed_contexts: set[str] = set()
+
         # Protects parent_to_children and parent_done
         self._parent_done_lock: Lock = Lock()
         self._replay_status: ReplayStatus = replay_status
@@ -436,6 +442,9 @@ class ExecutionState:
                     self._parent_to_children[operation_update.parent_id].add(
                         operation_update.operation_id
                     )
+                    self._parent_of[operation_update.operation_id] = (
+                        operation_update.parent_id
+                    )
 
                 # Handle CONTEXT completion - mark descendants while holding lock
                 if (
@@ -444,9 +453,15 @@ class ExecutionState:
                     in {OperationAction.SUCCEED, OperationAction.FAIL}
                 ):
                     self._mark_orphans(operation_update.operation_id)
+                    self._completed_contexts.add(operation_update.operation_id)
 
-                # Check if this operation's parent is done
-                if operation_update.operation_id in self._parent_done:
+                # Check if this operation's parent is done. An operation that is first seen after an
+                # ancestor completed is in no pre-computed set, so also walk up its parent links.
+                if (
+                    operation_update.operation_id in self._parent_done
+                    or self._has_completed_ancestor(operation_update.parent_id)
+                ):
+                    self._parent_done.add(operation_update.operation_id)
                     logger.debug(
                         "Rejecting checkpoint for operation %s - parent is done",
                         operation_update.operation_id,
@@ -527,6 +542,28 @@ class ExecutionState:
             self.stop_checkpointing()
             # Raise the original exception unwrapped
             raise bg_error.source_exception from bg_error
+
+    def _has_completed_ancestor(self, parent_id: str | None) -> bool:
+        """True if any enclosing context completed (or was orphaned) in this invocation.
+
+        Parent links come from the updates of this invocation and, for operations recorded by
+        earlier invocations, from the operations merged from history.
+
+        Must be called while holding _parent_done_lock.
+        """
+        seen: set[str] = set()
+        current = parent_id
+        while current and current not in seen:
+            if current in self._completed_contexts or current in self._parent_done:
+                return True
+            seen.add(current)
+            parent = self._parent_of.get(current)
+            if parent is None:
+                with self._operations_lock:
+                    recorded = self.operations.get(current)
+                parent = recorded.parent_id if recorded else None
+            current = parent
+        return False
 
     def _mark_orphans(self, context_id: str) -> None:
         """Mark all descendants (direct and transitive) as orphaned.
